@@ -54,8 +54,10 @@ def gen_prop_value(rng):
         return ['int', v]
     if k < 0.34:
         return ['float', gen.gen_values(rng, 'f64', 1).hex()]
-    if k < 0.42:
+    if k < 0.39:
         return ['bool', rng.random() < 0.5]
+    if k < 0.42:
+        return ['npbool', rng.random() < 0.5]
     if k < 0.56:
         return ['str', gen.gen_text(rng)]
     if k < 0.64:
@@ -181,7 +183,7 @@ def retype_variant(rng, pv):
     v = None
     if k == 'int':
         v = pv[1]
-    elif k == 'bool':
+    elif k in ('bool', 'npbool'):
         v = int(pv[1])
     elif k == 'np' and DT_TO_T[pv[1]] in fmt.INT_RANGE:
         v = int(np.frombuffer(bytes.fromhex(pv[2]), dtype=pv[1])[0])
@@ -283,6 +285,8 @@ def make_value(nptdms, pv):
         return struct.unpack('<d', bytes.fromhex(pv[1]))[0]
     if k in ('bool', 'str'):
         return pv[1]
+    if k == 'npbool':
+        return np.bool_(pv[1])
     if k == 'datetime':
         return datetime.datetime(1970, 1, 1) + datetime.timedelta(microseconds=pv[1])
     if k == 'datetime64':
@@ -353,7 +357,7 @@ def expected_prop(pv):
         return 'i32', v
     if k == 'float':
         return 'f64', bytes.fromhex(pv[1])
-    if k == 'bool':
+    if k in ('bool', 'npbool'):
         return 'bool', pv[1]
     if k == 'str':
         return 'str', pv[1]
